@@ -473,6 +473,64 @@ func RunC17(tier string) int {
 		}
 	}
 
+	// governance-only messages aimed at a target the SENDER ITSELF created with a permissionless message
+	// (an authority check that compares with the authority STORED in the target accepts these), and the
+	// same messages carrying the authority stored in a module-written target
+	{
+		t1 := w.A("t1").Addr.String()
+		type prepared struct {
+			name   string
+			prep   []sdk.Msg
+			attack sdk.Msg
+		}
+		addEntry := &aptypes.MsgAddEntry{Creator: t1, BaseDenom: "unewtok", Denom: "unewtok", Decimals: 6, DisplayName: "NEW", CommitEnabled: true, WithdrawEnabled: true}
+		var preps []prepared
+		preps = append(preps,
+			prepared{"sender_created_the_entry", []sdk.Msg{addEntry}, &aptypes.MsgUpdateEntry{Authority: t1, BaseDenom: "unewtok", Denom: "unewtok", Decimals: 18, DisplayName: "HIJACK"}},
+			prepared{"sender_created_the_entry", []sdk.Msg{addEntry}, &aptypes.MsgDeleteEntry{Authority: t1, BaseDenom: "unewtok"}},
+			prepared{"sender_created_the_asset_info", []sdk.Msg{&oracletypes.MsgCreateAssetInfo{Creator: t1, Denom: "unewtok", Display: "NEW", BandTicker: "NEW", ElysTicker: "NEW", Decimal: 6}}, &oracletypes.MsgRemoveAssetInfo{Authority: t1, Denom: "unewtok"}},
+		)
+		for _, e := range app.AssetprofileKeeper.GetAllEntry(base) {
+			if e.Authority != "" && e.Authority != w.Gov {
+				preps = append(preps,
+					prepared{"authority_stored_in_module_written_entry(" + e.BaseDenom + ")", nil, &aptypes.MsgUpdateEntry{Authority: e.Authority, BaseDenom: e.BaseDenom, Denom: e.Denom, Decimals: 18, DisplayName: "HIJACK"}},
+					prepared{"authority_stored_in_module_written_entry(" + e.BaseDenom + ")", nil, &aptypes.MsgDeleteEntry{Authority: e.Authority, BaseDenom: e.BaseDenom}})
+			}
+		}
+		for _, pc := range preps {
+			u := sdk.MsgTypeURL(pc.attack)
+			c, _ := base.CacheContext()
+			c = c.WithBlockHeight(w.Height() + 1).WithBlockTime(time.Unix(w.Env.Tm+5, 0).UTC())
+			okPrep := true
+			for _, pm := range pc.prep {
+				if _, err := app.MsgServiceRouter().Handler(pm)(c, pm); err != nil {
+					okPrep = false
+					vacuous = append(vacuous, u+": preparation "+sdk.MsgTypeURL(pm)+" rejected: "+err.Error())
+				}
+			}
+			if !okPrep {
+				continue
+			}
+			before := w.StoreDigest(c, nil)
+			var err error
+			func() {
+				defer func() {
+					if r := recover(); r != nil {
+						err = fmt.Errorf("panic: %v", r)
+					}
+				}()
+				_, err = app.MsgServiceRouter().Handler(pc.attack)(c, pc.attack)
+			}()
+			transitions++
+			res := "rejected"
+			if err == nil {
+				res = "ACCEPTED"
+				add(Finding{Clause: "gov_message_accepted_from_non_authority", Culprit: "direct", Disc: "type=" + u + ",ground=" + strings.SplitN(pc.name, "(", 2)[0], Detail: fmt.Sprintf("%s with a non-governance authority (%s) was accepted by the router handler; stores changed: %v", u, pc.name, digestEq(w.StoreDigest(c, nil), before))})
+			}
+			cases = append(cases, c17Case{u, "direct", "ordinary_account", pc.name, res})
+		}
+	}
+
 	for _, m := range ownerMixedCases(w) {
 		u := sdk.MsgTypeURL(m)
 		err, diff := direct(m)
